@@ -4,7 +4,7 @@ import Deb822Verif.Lemmas.RelLossyWide
 # C15, additions after the audit of the property (logs/audit_C15.md)
 
 1. the codec pair `(ws, nl)` (`Header::files_excluded` / `set_files_excluded`), which `sepCompat`
-   admits since the repair of F-C15-20: `C15_codec_list_ws_nl`, lifted to the table pair by
+   allows since the repair of F-C15-20: `C15_codec_list_ws_nl`, lifted to the table pair by
    `C15_files_excluded_set_then_get`; `C15_table_list_pairs_covered`: every string-list pair of the
    table is one of the four separator combinations a codec theorem exists for.
 2. set-then-get for the rows whose Rust type has no model in `Model/Typed.lean` (`Version`, `Url`,
